@@ -19,9 +19,9 @@ META = dict(
     id='C15',
     level='proof',
     technique='Coq proof (recursive-descent parser model vs the precedence grammar; calc/compile/print model) + differential correspondence of the extracted model against ledger + reference evaluator',
-    level_text='Theorems in coq/Properties/Properties_C15.v state, for all expressions of the operator grammar, that the model of parser.cc parses the minimally parenthesised text (and any more heavily parenthesised one) of an abstract expression to exactly its tree (precedence unary > * / > + - > comparisons > & > | > ?:, left associativity, parentheses override), that op_t::print output parses back to the same tree, conditionals included, that the tokenizer model reads every operator spelling, word operator and boolean back from its text whatever the number of blanks between tokens and skips white space in front of any token, that & | ?: evaluate only the operands the grammar says, that compiled identifiers keep the meaning they had at definition, and that constant folding and compilation preserve values. The model is tied to the code by running thousands of generated expressions through freshly built ledger (text as parsed, exact values through verif_rational, re-parse of the printed text) and through the extracted model.',
+    level_text='Theorems in coq/Properties/Properties_C15.v state, for all expressions of the operator grammar, that the model of parser.cc parses the minimally parenthesised text (and any more heavily parenthesised one) of an abstract expression to exactly its tree (precedence unary > * / > + - > comparisons > & > | > ?:, left associativity, parentheses override), that op_t::print output parses back to the same tree, conditionals included, that the tokenizer model reads every operator spelling, word operator and boolean back from its text whatever the number of blanks between tokens and skips white space in front of any token, that & | ?: evaluate only the operands the grammar says, that compiled identifiers keep the meaning they had at definition - in particular that a reference to a user-defined function is bound where it is written, whatever is defined later and whatever parameters its callers have (over the identifier-resolution lines of op.cc re-read on every run) -, and that constant folding and compilation preserve values. The model is tied to the code by running thousands of generated expressions through freshly built ledger (text as parsed, exact values through verif_rational, re-parse of the printed text) and through the extracted model.',
     level_note='Trusted: Coq kernel; extraction + OCaml driver and python harness for the correspondence; the tokenizer is modelled (Model/ExprLex.v) and the model is given the expression text; its round trip is proved for the fixed-spelling tokens only (identifiers and literals: computed examples + correspondence); value arithmetic is Model/Amount.v (C03). Not modelled: strings, dates, regex masks, member lookup (each a lexing failure in the model), sequences as values, per-SCOPE symbol tables (use-before-definition inside a body).',
-    design_ref='DESIGN.md section 7 C15, section 9 F1 (F6 and F34 repaired)',
+    design_ref='DESIGN.md section 7 C15, section 9 F1, F35-F37, F215 (F6 and F34 repaired)',
     assumptions=['expressions avoid built-in function names, the predefined time commodities s/m/h and reserved words as identifiers',
                  'INTEGER values stay within C long',
                  'identifiers are defined before use; every binder name in an expression is distinct (except in the directed scoping cases)',
@@ -822,6 +822,54 @@ def gen_funref(rng, names):
     return stmts, top
 
 
+def gen_leak(rng, names):
+    """Definitions INSIDE a function or lambda body (property text: variables and functions are lexically scoped - what a
+    body defines is local to it).  One to three top-level constants; a function, in either spelling, whose body is a
+    sequence that defines a variable (constant, so F37 is not involved) or an inner function, named like a top-level
+    constant or freshly; the final expression uses the top-level names AFTER the function was defined, with or without
+    calling it, or refers to the fresh inner name (lexically unknown there: an error is required).  -> expression"""
+    num = lambda v: ('lit', Lit(str(v), 0, None))
+    consts = [names.fresh('x') for _ in range(rng.choice([1, 2, 3]))]
+    stmts = [('def', x, num(rng.randrange(2, 50))) for x in consts]
+    f, a = names.fresh('f'), names.fresh('p')
+    inner_fun = rng.random() < 0.3
+    reuse = rng.random() < 0.6
+    loc = rng.choice(consts) if reuse else names.fresh('y')
+    if inner_fun:
+        b = names.fresh('p')
+        local = ('deffun', loc, [b], ('bin', rng.choice(['+', '*']), ('id', b), num(rng.randrange(100, 900))))
+        use = ('call', ('id', loc), [('id', a)])
+    else:
+        local = ('def', loc, num(rng.randrange(100, 900)))
+        use = ('bin', rng.choice(['+', '*', '-']), ('id', loc), ('id', a))
+    locals_ = [local]
+    if rng.random() < 0.3:
+        y2 = names.fresh('y')
+        locals_.insert(rng.choice([0, 1]), ('def', y2, num(rng.randrange(2, 9))))
+        use = ('bin', '+', use, ('id', y2))
+    body = ('seq', locals_, use)
+    if rng.random() < 0.6:
+        stmts.append(('deffun', f, [a], body))
+    else:
+        stmts.append(('def', f, ('lam', [a], body)))
+    terms = []
+    if rng.random() < 0.75:
+        terms.append(('call', ('id', f), [num(rng.randrange(1, 9))]))
+    outside = ('id', loc) if not (inner_fun and reuse) else ('id', rng.choice(consts))
+    if inner_fun and not reuse:
+        outside = ('call', ('id', loc), [num(rng.randrange(1, 9))])
+    terms.append(outside)
+    for x in consts:
+        if rng.random() < 0.4:
+            terms.append(('id', x))
+    if rng.random() < 0.5:
+        rng.shuffle(terms)
+    e = terms[0]
+    for t in terms[1:]:
+        e = ('bin', rng.choice(['+', '+', '-', '*']), e, t)
+    return ('seq', stmts, e)
+
+
 def alpha_rename(e, names, m=None):
     """the same expression with every PARAMETER (of a lambda or of a function definition) renamed to a fresh name, by the
     rules of lexical scoping: a parameter is visible in the body it belongs to, nested bodies included, until a binder of
@@ -966,6 +1014,10 @@ def directed(rng):
         # a variable defined from a parameter, used inside a function whose parameter has the same name
         ('dynscope', ('seq', [('deffun', f, [a], ('seq', [('def', y, ('bin', '*', ('id', a), n(2))), ('deffun', g, [a], ('id', y))],
                                                   ('call', ('id', g), [n(v2)])))],
+                      ('call', ('id', f), [n(v1)]))),
+        # the same through a lambda applied on the spot: fn(vx) = (vt = vx * 2; (vx -> vt + vx)(100)); fn(3)
+        ('dynscope', ('seq', [('deffun', f, [a], ('seq', [('def', y, ('bin', '*', ('id', a), n(2)))],
+                                                  ('call', ('lam', [a], ('bin', '+', ('id', y), ('id', a))), [n(v2 * 10)])))],
                       ('call', ('id', f), [n(v1)]))),
         # a ternary whose branches become constants during compilation
         ('foldtern', ('tern', ('bool', v1 % 2 == 0), ('seq', [('def', x, n(v1))], n(v2)), n(v3), '?')),
@@ -1120,6 +1172,8 @@ def kc(r):
         return r
     if r.startswith('E:'):
         return 'E'
+    if r == 'T:an expr':          # verif_rational of a function value (`type:` + value_t::label); the driver writes F:
+        return 'F:'
     return r
 
 
@@ -1401,7 +1455,7 @@ def run(ctx, n_override=None):
     res.rule = ('all operator trees of depth <= 2 over 10 leaves (to_int integers, decimals, $ and EUR amounts, braced literals, booleans, zero) '
                 'and 12 binary + 2 unary operators + ?:, a sample (thorough: a bounded-exhaustive sweep over 4 leaves) of depth 3; random trees of '
                 'depth <= 7 with let-bindings, lambdas, function definitions, calls, every operator spelling, redundant parentheses and white '
-                'space variations; directed scoping / short-circuit / precedence shapes; a malformed stream (printed text only); tokenizer texts (word-operator '
+                'space variations; directed scoping / short-circuit / precedence shapes; functions referring to functions below callers whose parameters carry the same names or before a later redefinition (also as define directives, and with every parameter renamed); definitions inside function bodies; a malformed stream (printed text only); tokenizer texts (word-operator '
                 'edges, two-character operators, identifier/number adjacency, {..}) and random trees spelled without any optional blank and with blanks everywhere. '
                 'non-trivial = at least two different node kinds and the reference evaluator determines the value; distinct by text')
     scale = n_override or 1
@@ -1496,6 +1550,11 @@ def run(ctx, n_override=None):
         process(ctx, res, ra, 'funref')
         process(ctx, res, rb, 'funref')
     run_define_batch(ctx, res, pool0, dcases, 'funref-define')
+    # --- 3d. definitions local to a function body
+    cases = [mk_case(rng, 'leak', gen_leak(rng, Names('k' + enc(i))), extra=rng.choice([0.0, 0.0, 0.2]), tight=rng.choice([0.0, 0.5]))
+             for i in range(ctx.scale(120, 1500) * scale)]
+    for k in range(0, len(cases), batch):
+        process(ctx, res, run_batch(ctx, res, journal, pool0, cases[k:k + batch], 'lk%d_' % k), 'leak')
     # --- 4. malformed / edge stream: printed text only
     cases = []
     for t in MALFORMED:
